@@ -530,9 +530,14 @@ func targets(c *hl.Ctx) []target {
 	for _, cf := range []struct {
 		server, comp bool
 		limit        int64
-	}{{true, false, 0}, {false, false, 0}, {true, true, 0}, {false, true, 0}, {true, false, 100}, {false, true, 100}} {
+		readMessage  bool // read through Conn.ReadMessage instead of NextReader + io.Copy
+	}{{true, false, 0, false}, {false, false, 0, false}, {true, true, 0, false}, {false, true, 0, false}, {true, false, 100, false}, {false, true, 100, false},
+		{true, false, 0, true}, {false, false, 0, true}, {false, true, 0, true}, {true, false, 100, true}} {
 		cf := cf
 		name := fmt.Sprintf("websocket.Read/server=%v,compression=%v,limit=%d", cf.server, cf.comp, cf.limit)
+		if cf.readMessage {
+			name += ",api=ReadMessage"
+		}
 		fr := func(op byte, fin bool, rsv1 bool, p []byte) []byte {
 			return wsref.Frame{Fin: fin, Opcode: op, Rsv1: rsv1, Masked: cf.server, Key: [4]byte{1, 2, 3, 4}, Len: uint64(len(p)), Payload: p}.Bytes()
 		}
@@ -543,6 +548,15 @@ func targets(c *hl.Ctx) []target {
 				ws.SetReadLimit(cf.limit)
 			}
 			for i := 0; i < 100000; i++ {
+				if cf.readMessage {
+					if _, _, err := ws.ReadMessage(); err != nil {
+						if _, _, err2 := ws.ReadMessage(); err2 == nil {
+							continue // errors of one message (e.g. corrupt deflate) are not connection errors
+						}
+						return
+					}
+					continue
+				}
 				_, r, err := ws.NextReader()
 				if err != nil {
 					return
@@ -788,7 +802,7 @@ func targets(c *hl.Ctx) []target {
 			[]byte(`{"s":"a\"b // not a comment","t":[1,2,3]} // tail`),
 			[]byte("/* unterminated"), []byte(`"unterminated`), []byte("[1,/**/2]//"),
 		}
-	}, pumps: []pump{
+	}, pumps: append([]pump{
 		{"many-empty-strings", func(n int) []byte { return bytes.Repeat([]byte(`""`), n/2) }},
 		{"many-line-comments", func(n int) []byte { return bytes.Repeat([]byte("//c\n"), n/4) }},
 		{"many-block-comments", func(n int) []byte { return bytes.Repeat([]byte("/**/1 "), n/6) }},
@@ -796,8 +810,33 @@ func targets(c *hl.Ctx) []target {
 		{"long-marker-free", func(n int) []byte { return []byte("[" + strings.Repeat("1,", n/2) + "1]") }},
 		{"long-comment", func(n int) []byte { return []byte("/*" + strings.Repeat("c", n) + "*/1") }},
 		{"slashes", func(n int) []byte { return bytes.Repeat([]byte("/ "), n/2) }},
-	}})
+	}, jsonPumpGrid()...)})
 	return ts
+}
+
+// jsonPumpGrid is the product of the lexical contexts of JSON+ (top level, double- and single-quoted string, block and
+// line comment) with the units that matter to its scanner (escaped and bare quotes of both kinds, backslash pairs,
+// slashes, stars, comment openers and closers, newlines, a plain byte): one pumped family per pair, the unit repeated
+// inside one token of the context. Units that close the context simply make the input an alternation of tokens.
+func jsonPumpGrid() []pump {
+	ctxs := []struct{ name, open, close string }{
+		{"top", "", ""}, {"dq", `{"k":"`, `"}`}, {"sq", `{'k':'`, `'}`}, {"block", "/*", "*/1"}, {"line", "//", "\n1"},
+	}
+	units := []struct{ name, u string }{
+		{"esc-dq", `\"`}, {"esc-sq", `\'`}, {"backslash-pair", `\\`}, {"backslash-pair-esc-dq", `\\\"`}, {"backslash", `\`},
+		{"dq", `"`}, {"sq", `'`}, {"slash", "/"}, {"star", "*"}, {"open-block", "/*"}, {"close-block", "*/"},
+		{"open-line", "//"}, {"newline", "\n"}, {"plain", "x"}, {"star-slash-star", "*/*"}, {"esc-dq-esc-sq", `\"\'`},
+	}
+	var out []pump
+	for _, cx := range ctxs {
+		for _, u := range units {
+			cx, u := cx, u
+			out = append(out, pump{"grid/" + cx.name + "/" + u.name, func(n int) []byte {
+				return []byte(cx.open + strings.Repeat(u.u, n/len(u.u)) + cx.close)
+			}})
+		}
+	}
+	return out
 }
 
 // jsonSubsets returns the JSON object with every subset of its top-level members removed
